@@ -301,6 +301,11 @@ func (h *HttpServer) handleStreamInit(w http.ResponseWriter, r *http.Request) {
 				h.logIPCWriteErr("state-token-batch", info.Name, werr)
 				handlerErr = werr
 			}
+			if handlerErr != nil {
+				// Without a continuation token the client would read what was
+				// produced so far as the whole stream: tell it the stream failed.
+				h.logIPCWriteErr("error-batch", info.Name, writeErrorBatch(writer, outputSchema, handlerErr, h.server.serverID, "", h.server.debugErrors))
+			}
 		}
 		if cerr := writer.Close(); cerr != nil {
 			h.logIPCWriteErr("close", info.Name, cerr)
@@ -674,6 +679,11 @@ func (h *HttpServer) handleProducerContinuation(ctx context.Context, w http.Resp
 		} else if werr := writeStateTokenBatch(writer, schema, token, nil); werr != nil {
 			h.logIPCWriteErr("state-token-batch", info.Name, werr)
 			err = werr
+		}
+		if err != nil {
+			// Without a continuation token the client would read what was
+			// produced so far as the whole stream: tell it the stream failed.
+			h.logIPCWriteErr("error-batch", info.Name, writeErrorBatch(writer, schema, err, h.server.serverID, "", h.server.debugErrors))
 		}
 	}
 	if cerr := writer.Close(); cerr != nil {
